@@ -107,14 +107,18 @@ Qed.
 
 (* ---- the items of a well-formed program are well positioned ---- *)
 Lemma reify_s_plain en props pc s : plain_stmt (reify_s en props pc s) = true.
-Proof. destruct s as [t e|f args|f args|fam pid o v|tk ti tv|an ao av|mp mi mm mv|]; cbn [reify_s plain_stmt]; try reflexivity; destruct (reify_args en pc args); reflexivity. Qed.
+Proof. destruct s as [t e|f args|f args|fam pid o v|tk ti tv|an ao av|mp mi mm mv| |pmd pf pv|lmd li lv]; cbn [reify_s plain_stmt]; try reflexivity; destruct (reify_args en pc args); reflexivity. Qed.
 
 Lemma arglist_len_nonneg n : 0 <= arglist_len n.
 Proof. unfold arglist_len. destruct (Z.of_nat n <? 256); lia. Qed.
 
 Lemma reify_s_pos en props pc s : pc <= pos_of (reify_s en props pc s) < pc + zlen (compile_s s).
 Proof.
-  destruct s as [t e|f args|f args|fam pid o v|tk ti tv|an ao av|mp mi mm mv|]; cbn [reify_s compile_s].
+  destruct s as [t e|f args|f args|fam pid o v|tk ti tv|an ao av|mp mi mm mv| |pmd pf pv|lmd li lv]; cbn [reify_s compile_s].
+  10:{ cbn [pos_of]. rewrite !zlen_app. change (zlen [b 89; b (16 * pcode lmd + 5)]) with 2.
+       pose proof (zlen_nonneg (compile_e lv)). pose proof (zlen_nonneg (compile_int (scaled li))). lia. }
+  9:{ cbn [pos_of]. rewrite !zlen_app. change (zlen [b 89; b (16 * pcode pmd + 6)]) with 2.
+      pose proof (zlen_nonneg (compile_e pf)). pose proof (zlen_nonneg (compile_e pv)). lia. }
   8:{ cbn [pos_of]. rewrite zlen_cons, zlen_nil. lia. }
   7:{ cbn [pos_of]. rewrite !zlen_app. change (zlen [b 93; b 3]) with 2.
       pose proof (zlen_nonneg (compile_e mi)). pose proof (zlen_nonneg (compile_e mm)). pose proof (zlen_nonneg (compile_e mv)).
